@@ -124,6 +124,10 @@ pub fn exec(a: &[&str]) -> String {
                 }
             }
             // 3. the CLI prints the library's expression (first offset)
+            // (one spawn more: done for a deterministic quarter of the requests)
+            if bytes.len() % 4 != 0 {
+                return format!("LOC-OK {}", offs.len());
+            }
             let path = std::env::temp_dir().join(format!("svc29-{}.yaml", std::process::id()));
             if std::fs::write(&path, &bytes).is_ok() {
                 let (_, out3, err3) = run_cli(&["yq-locate", path.to_str().unwrap(), "--offset", &offs[0].to_string()], b"");
@@ -139,7 +143,7 @@ pub fn exec(a: &[&str]) -> String {
 }
 
 pub fn gen(tier: Tier, r: &mut Rng, emit: &mut dyn FnMut(String)) {
-    let n = if tier == Tier::Quick { 40 } else { 400 };
+    let n = if tier == Tier::Quick { 24 } else { 400 };
     let mut made = 0;
     let mut attempts = 0;
     while made < n && attempts < n * 40 {
